@@ -438,6 +438,14 @@ func TestC13Pool(t *testing.T) {
 						}
 					}
 				}
+				// an account made idle at an earlier step whose list has not changed since (the run at that step gave up
+				// before reaching it) is still idle
+				for _, a := range accs {
+					if !agedAcc[string(a.Account)] && m.mp.VerifIsIdle(a.Account) {
+						agedAcc[string(a.Account)] = true
+						aged = append(aged, fmt.Sprintf("%x:%v/%d(still idle)", a.Account[:2], a.Nonces, a.Ready))
+					}
+				}
 				m.mp.VerifEvict()
 				got := heldModel()
 				for _, a := range accs {
